@@ -546,6 +546,26 @@ func genMetric(r *rand.Rand, mode string) metricIn {
 			in.Reps = 4
 			return in
 		}
+		if r.Intn(7) == 0 {
+			// the series without labels is ONE series however it came about: no grouping clause, by (), by (a label nobody has),
+			// without (every label) - on the two sides of a binary operation they meet
+			mk := func(id int, g grpIn, op string) *mexprIn {
+				rg := &mexprIn{T: "range", ID: id, Op: "count_over_time", Sel: []matcherIn{}, Param: Ints{0, 1}, Grp: noGrp(), V: Ints{0, 1}, Unwrap: unwrapIn{Label: Ints{}}, Range: 100,
+					Stages: []stageIn{{T: "drop", Labels: IntsList{B("msg"), B("v")}}}}
+				return &mexprIn{T: "vecagg", Op: op, Grp: g, E: rg, Sel: []matcherIn{}, Stages: []stageIn{}, Param: Ints{0, 1}, V: Ints{0, 1}, Unwrap: unwrapIn{Label: Ints{}}}
+			}
+			all := IntsList{}
+			for _, nm := range names {
+				all = append(all, B(nm))
+			}
+			empties := []grpIn{noGrp(), {Mode: "by", Labels: IntsList{}}, {Mode: "by", Labels: IntsList{B("nope")}}, {Mode: "without", Labels: all}, noGrp()}
+			ga, gb := empties[r.Intn(len(empties))], empties[r.Intn(len(empties))]
+			in.Expr = mexprIn{T: "binop", Op: pick(r, []string{"or", "and", "unless", "div", "add", "eq", "sub"}), A: mk(1, ga, pick(r, []string{"sum", "count", "max"})), B: mk(2, gb, pick(r, []string{"sum", "min"})),
+				Sel: []matcherIn{}, Stages: []stageIn{}, Param: Ints{0, 1}, V: Ints{0, 1}, Unwrap: unwrapIn{Label: Ints{}}, Grp: noGrp()}
+			in.Evals = []evalIn{{Start: mBase + 50, End: mBase + 50, Step: 0}, {Start: mBase + 40, End: mBase + 60, Step: 10}}
+			in.Reps = 2
+			return in
+		}
 		e := &mexprIn{T: "range", ID: 1, Sel: []matcherIn{}, Param: Ints{0, 1}, Grp: noGrp(), V: Ints{0, 1}, Unwrap: unwrapIn{Label: Ints{}}, Range: 100}
 		switch r.Intn(3) {
 		case 0:
